@@ -88,13 +88,17 @@ theorem norm_apply_map (ops : Ops K D T) (ns N : Nat) (child : D → T → Optio
         | add b =>
           rw [ha] at hk
           simp only [normAction] at hk ⊢
-          cases hc : child d (ops.setNames (ops.fromKey N k) ((ops.names (ops.fromKey N k)).set ns (some b))) with
-          | none => rw [hc] at hk; simp at hk
-          | some t' =>
-            rw [hc] at hk
-            simp only [Option.map_some, Option.some.injEq] at hk
-            obtain ⟨t'', h1, h2⟩ := hchild d _ t' hpd (hPset _ _ (hPkey k)) hc
-            exact ⟨some t'', by rw [h1]; rfl, by rw [← hk]; exact h2⟩
+          split at hk
+          · rename_i hcond
+            rw [if_pos hcond]
+            cases hc : child d (ops.setNames (ops.fromKey N k) ((ops.names (ops.fromKey N k)).set ns (some b))) with
+            | none => rw [hc] at hk; simp at hk
+            | some t' =>
+              rw [hc] at hk
+              simp only [Option.map_some, Option.some.injEq] at hk
+              obtain ⟨t'', h1, h2⟩ := hchild d _ t' hpd (hPset _ _ (hPkey k)) hc
+              exact ⟨some t'', by rw [h1]; rfl, by rw [← hk]; exact h2⟩
+          · simp at hk
       | some t =>
         have hpt : Pt t := hPt (k, t) (mem_of_lookup hlt)
         rw [hlt] at hk
